@@ -182,6 +182,23 @@ def run(tier: str) -> int:
             else:
                 rep.error(f"TLC failed on Sched: {r.out[-1500:]}")
             return rep.finish()
+        # ---- (0) unbounded: the inductive invariant of the counter abstraction (SchedInd.tla), discharged by Apalache for
+        # every number of trials per step and every minimum count; Sched.tla above has just checked that it IS an
+        # abstraction of the slot-by-slot process (C09_AbstractionInv, C09_AbstractionStep)
+        from concurrent.futures import ThreadPoolExecutor
+
+        from tlc import run_apalache
+
+        goals = [("init", ["--init=IndInit", "--inv=IndInv", "--length=0"]), ("step", ["--init=IndInv", "--inv=IndInv", "--length=1"]),
+                 ("contract", ["--init=IndInv", "--inv=Contract", "--length=0"]), ("nostall", ["--init=IndInv", "--inv=NoStall", "--length=0"])]
+        with ThreadPoolExecutor(4) as ex:
+            outcomes = list(ex.map(lambda g: run_apalache("SchedInd", g[1]), goals))
+        for (gname, _), (ok, violated, text) in zip(goals, outcomes):
+            if violated:
+                rep.violation(f"model:SchedInd:{gname}", f"Apalache: the inductive argument for the scheduling contract fails at '{gname}' (SchedInd.tla)", {"apalache": text})
+            elif not ok:
+                rep.error(f"Apalache failed on SchedInd ({gname}): {text[-800:]}")
+        rep.add(apalache_inductive_goals=len(goals))
         cases = [json.loads(l) for l in open(out)]
         # ---- (1) small tables: the code emits exactly the allowed set ---------------------------------
         stride = 6 if tier == "quick" else 1
